@@ -123,10 +123,21 @@ impl super::Connector for SocksConnector {
             .auth
             .to_owned()
             .map(|auth| (auth.username, auth.password));
+        // DST.ADDR of a UDP ASSOCIATE is where the client will send its datagrams FROM (zeros when it can not tell
+        // yet), not where they are meant to go: an upstream that holds its clients to the announced address
+        // dropped every datagram of a session with a fixed destination
+        let target = if cmd == SOCKS_CMD_UDP_ASSOCIATE {
+            crate::context::TargetAddress::SocketAddr(SocketAddr::new(
+                std::net::Ipv4Addr::UNSPECIFIED.into(),
+                0,
+            ))
+        } else {
+            ctx.read().await.target()
+        };
         let req = SocksRequest {
             version: self.version,
             cmd,
-            target: ctx.read().await.target(),
+            target,
             auth,
         };
         req.write_to(&mut server, PasswordAuth::optional()).await?;
